@@ -181,3 +181,13 @@ check("C10",
       "representation conversions. Outside: exponent = Lévy-Khintchine integral beyond its Taylor data at 0, CGMY y in {0,1}, CGMY/VG first-moment link; "
       "Markov-chain drift route is C04.",
       "symbolic Taylor-jet / complex execution of the real python functions + SMT (z3, cvc5 fallback) on cross-multiplied polynomial identities", "DESIGN.md section 3 C10")
+
+check("C15",
+      "Bounded model checking of the real direct simulators (fixed dates, jump times, maximum step) and both build_finer_grid closures on the RNG / Poisson "
+      "models with symbolic dates, uniforms, normals and jump increments: path starts at 0, times are the product dates / sorted jump times ending at the "
+      "maturity, jump and diffusion components are running sums with each variate used exactly once, refinement keeps every original (time, value) pair in "
+      "order, inserted points repeat their predecessor, every step of the refined grid <= epsilon, fine and coarse arrays stay aligned.",
+      "Trusted: z3; RNG model (fresh symbol per draw, Poisson counts in [0,2]); sqrt axioms. Bounds: <= 2/3 dates, <= 2 jumps per interval, gaps < 3 epsilon. "
+      "Outside: copula / coupled simulators' assembly code. Known findings: fixed-date jump component not cumulative across several dates; last gap to the "
+      "maturity not subdivided.",
+      TECH, "DESIGN.md section 3 C15")
